@@ -98,6 +98,7 @@ impl Prop for C05 {
     }
     fn run(&self, ctx: &Ctx) {
         ctx.journal_bytes.set(true);
+        ctx.shrink_iters.set(400);
         let cases = ctx.tier.pick(1_200u32, 20_000u32);
         ctx.run_bytes("session", cases, 1536, case);
         let deep = ctx.tier.pick(60u32, 1_500u32);
